@@ -248,9 +248,9 @@ def spec_call(ex, st, e, cx, k):
         pat = z3.Concat(z3.StringVal('\\b'), esc(vs[0].z), z3.StringVal('\\b'))
         f_ = ex.uf('re_sub', z3.StringSort(), z3.StringSort(), z3.StringSort(), z3.StringSort())
         return k(st, SV(STR, f_(pat, vs[1].z, vs[2].z)))
-    if nm == 'str_lower':
+    if nm in ('str_lower', 'str_strip', 'str_upper', 'str_rstrip', 'str_lstrip'):
         v = ex.pure(st, e.args[0], cx)
-        return k(st, SV(STR, ex.uf('str_lower', z3.StringSort(), z3.StringSort())(v.z)))
+        return k(st, SV(STR, ex.uf(nm, z3.StringSort(), z3.StringSort())(v.z)))
     if nm == 'cfg_key_at':
         c_, i_ = ex.pure(st, e.args[0], cx), ex.pure(st, e.args[1], cx)
         return k(st, SV(STR, ex.uf('cfg_key_at', z3.IntSort(), z3.IntSort(), z3.StringSort())(c_.z, i_.z)))
@@ -263,6 +263,9 @@ def spec_call(ex, st, e, cx, k):
         a = ex.coerce(a, STR) if a.ty.kind != 'str' else a
         b = ex.coerce(b, STR) if b.ty.kind != 'str' else b
         return k(st, SV(BOOL, rk(a.z) < rk(b.z)))
+    if nm == 'path_real':
+        v = ex.pure(st, e.args[0], cx)
+        return k(st, SV(STR, ex.uf('path_realpath1', z3.StringSort(), z3.StringSort())(v.z)))
     if nm in ('path_exists', 'path_join'):
         vs = [ex.pure(st, a, cx) for a in e.args]
         if nm == 'path_exists':
@@ -615,6 +618,11 @@ def apply_modifies(ex, st, targets, cx_spec, hint='mod'):
             key = t[5:]
             old = ex.heap_get(st, key)
             st = st.setheap(key, ex.fresh_z(old.sort(), hint))
+            continue
+        if t.startswith('all-dicts:'):
+            # the content of every dict of this type
+            dk, ds, vk, vs = ex.dkeys(ex.tenv.parse(t[len('all-dicts:'):]))
+            st = st.setheap(dk, ex.fresh_z(ds, hint + '_dom')).setheap(vk, ex.fresh_z(vs, hint + '_val'))
             continue
         content = t.endswith('[*]')
         base = t[:-3] if content else t
